@@ -106,6 +106,10 @@ def make_source(env, data, src):
     if ch == 'resource':
         import xmlschema
         return xmlschema.XMLResource(data), None
+    if ch in ('lxml_tree', 'lxml_element'):
+        import lxml.etree
+        root = lxml.etree.fromstring(data)
+        return (lxml.etree.ElementTree(root) if ch == 'lxml_tree' else root), None
     raise ValueError(ch)
 
 
